@@ -43,6 +43,11 @@ CHECKS = {
                 text='partial: per-primitive and per-program send/receive label balance, at-most-once labels per connection and program-counter/level bookkeeping on a ghost '
                      'network with all parties running the real code; global label uniqueness over a whole run (hash collisions) is assumed, not decided',
                 note=B_NOTE + '; _hop collision-freeness assumed', technique='bounded contract evaluation on a ghost network (all parties, real code)'),
+    'C10': dict(engine='pyvc+native-enum', category='other', design_ref='DESIGN.md §5 C10',
+                text='deductive verification (all streams, chunk boundaries, m, t, pids) of the real send, data_received (handshake and frame branches), receive and the '
+                     'PRSS key packet helpers against a class invariant that mentions no chunk boundary; cross-checked on the real objects over enumerated chunkings',
+                note='struct codec and bytearray-window model trusted; partial correctness; connection_made and set_protocol only in the bounded handshake runs',
+                technique='deductive verification (AST -> VCs -> z3/cvc5) + bounded enumeration of chunkings'),
     'C11': dict(engine='symx', category='other', design_ref='DESIGN.md §5 C11',
                 text='degree-t sharing decided exactly on symbolic shares for input, multiplication+_reshare and _randoms (PRSS on/off); concrete m-party runs of ~150 operations '
                      'check the sharing degree at every output/_reshare call and of every returned secure value; value-mode degree ghost covers all values in between',
@@ -75,6 +80,11 @@ CHECKS = {
     'C19': dict(engine='symx', category='other', design_ref='DESIGN.md §5 C19',
                 text='ghost-network postconditions with all parties running the real output/transfer: no message to a non-receiver, non-receivers return None',
                 note=B_NOTE + '; SecureFloat outputs and group elements not covered', technique='bounded contract evaluation on a ghost network (all parties, real code)'),
+    'C36': dict(engine='pyvc+symx+native-enum', category='other', design_ref='DESIGN.md §5 C36',
+                text='partial (safety half): only complete frames are delivered and receive returns exactly the labelled payload (proved), gather completes only after all '
+                     'futures (bounded), recombination correct from genuine shares (proved, C12), and a bounded enumeration of crash points of one party in m-party runs: survivors '
+                     'output the correct value or never complete', note='liveness not decided; one program; crash = later messages never delivered',
+                technique='deductive verification of the framing/recombination contracts + bounded crash enumeration on a ghost network'),
     'C20': dict(engine='native-enum', category='other', design_ref='DESIGN.md §5 C20',
                 text='executable contracts of every field operator (binary, reflected, in-place, int/polynomial mixing, **, shifts, ==/hash, field axioms) evaluated '
                      'exhaustively on the real classes for all elements of the listed prime, binary and odd-characteristic extension fields against independent table arithmetic',
